@@ -71,9 +71,14 @@ def encode(v):
                 "prange": encode(v.prange), "tag": encode(v.tag)}
     if tn == "Obs":
         if len(v.names) >= 1 and all(n in v.idl for n in v.names):
-            return {"__obsfull__": {n: [encode(v.idl[n] if isinstance(v.idl[n], range) else list(v.idl[n])),
-                                        [float(x) for x in (v.deltas[n] + v.r_values[n])]] for n in v.names},
-                    "reweighted": bool(v.reweighted)}
+            out = {"__obsfull__": {n: [encode(v.idl[n] if isinstance(v.idl[n], range) else list(v.idl[n])),
+                                       [float(x) for x in (v.deltas[n] + v.r_values[n])]] for n in v.names},
+                   "reweighted": bool(v.reweighted)}
+            if hasattr(v, "e_dvalue") and getattr(v, "S", None):
+                # an analysed observable: the analysis is repeated with the same parameters when the input is decoded
+                out["analysed"] = {"S": float(list(v.S.values())[0]), "tau_exp": float(list(v.tau_exp.values())[0]),
+                                   "N_sigma": float(list(v.N_sigma.values())[0])}
+            return out
         return {"__obs__": float(v.value)}
     return {"__repr__": repr(v)}
 
@@ -102,8 +107,11 @@ def decode(v):
             return c
         if "__obsfull__" in v:
             from contracts.obsmodel import native_obs_from
-            return native_obs_from({"chains": {n: (decode(x[0]), x[1]) for n, x in v["__obsfull__"].items()},
-                                    "reweighted": v.get("reweighted")})
+            o = native_obs_from({"chains": {n: (decode(x[0]), x[1]) for n, x in v["__obsfull__"].items()},
+                                 "reweighted": v.get("reweighted")})
+            if v.get("analysed"):
+                o.gamma_method(**v["analysed"])
+            return o
         if "__obs__" in v:
             from contracts.corr import native_obs
             return native_obs(v["__obs__"])
